@@ -9,7 +9,11 @@
 //!  {"a":"search","kind":"ext"|"recycle"|"exists","idd":{"u":"e10","scope":"ro"},"f":AST,"req":[..]|"all",
 //!            "id":{projected identity},"m":[candidate ids],"res":"ok"|"err_..","out":{id:[attr names]},"ex":bool}
 use crate::world::*;
+use kanidmd_lib::idm::ldap::{LdapBoundToken, LdapResponseState, LdapServer, LdapSession};
+use kanidmd_lib::idm::server::IdmServerTransaction;
 use kanidmd_lib::prelude::*;
+use ldap3_proto::proto::{LdapFilter, LdapOp, LdapResultCode, LdapSearchScope};
+use ldap3_proto::simple::{CompareRequest, SearchRequest, ServerOps};
 use kvc::srv::*;
 use kvc::util::*;
 use serde_json::{json, Map, Value as J};
@@ -185,6 +189,145 @@ pub fn proj_ents(rd: &mut QueryServerReadTransaction<'_>, extra: &BTreeSet<Uuid>
     J::Object(m)
 }
 
+// ------------------------------------------------------------------ LDAP gateway
+fn ast_to_ldap(f: &J) -> Option<LdapFilter> {
+    let val = |v: &J| -> String {
+        let s = v.as_str().unwrap_or("");
+        let is_name = (s.starts_with('e') || s.starts_with('b')) && s.len() > 1 && s[1..].chars().all(|c| c.is_ascii_digit());
+        if is_name { un(s).to_string() } else { s.to_string() }
+    };
+    Some(match f["t"].as_str().unwrap_or("") {
+        "eq" => LdapFilter::Equality(f["a"].as_str()?.to_string(), val(&f["v"])),
+        "pres" => LdapFilter::Present(f["a"].as_str()?.to_string()),
+        "and" => LdapFilter::And(f["s"].as_array()?.iter().map(ast_to_ldap).collect::<Option<Vec<_>>>()?),
+        "or" => LdapFilter::Or(f["s"].as_array()?.iter().map(ast_to_ldap).collect::<Option<Vec<_>>>()?),
+        "andnot" => LdapFilter::Not(Box::new(ast_to_ldap(&f["f"])?)),
+        _ => return None,
+    })
+}
+fn ldap_wrap(f: LdapFilter) -> LdapFilter {
+    // the wrapper do_search / do_compare put around the client's filter
+    LdapFilter::And(vec![f, LdapFilter::Not(Box::new(LdapFilter::Or(vec![
+        LdapFilter::Equality("class".into(), "classtype".into()),
+        LdapFilter::Equality("class".into(), "attributetype".into()),
+        LdapFilter::Equality("class".into(), "access_control_profile".into()),
+    ])))])
+}
+
+/// LDAP search / compare through the REAL LdapServer::do_op with a bound token for the account in "idd"
+/// (a unix-bind session: the gateway bounds it to the anonymous identity).
+pub async fn do_ldap(idms: &IdmServer, ldaps: &LdapServer, line: &J, extra: &mut BTreeSet<Uuid>) -> J {
+    let kind = line["kind"].as_str().unwrap_or("ldap").to_string();
+    let mut o = Map::new();
+    o.insert("a".into(), json!("search"));
+    for k in ["kind", "idd", "f", "req", "t", "atype", "val"] {
+        if line.get(k).is_some() { o.insert(k.into(), line[k].clone()); }
+    }
+    o.insert("all".into(), json!(false));
+    let bind_uuid = un(line["idd"]["u"].as_str().unwrap_or("e10"));
+    let session = LdapSession::UnixBind(bind_uuid);
+    let token = LdapBoundToken { spn: "verif".into(), session_id: uuid_e(9999), effective_session: session.clone() };
+    let ct = duration_from_epoch_now();
+    // identity the gateway derives, rdn -> uuid map, candidate sets (same constructors as do_search/do_compare)
+    let mut rdn2uuid: BTreeMap<String, Uuid> = BTreeMap::new();
+    let ident;
+    let basedn;
+    let mut m: Vec<String> = vec![];
+    let mut m2: Vec<String> = vec![];
+    let mut f2 = json!({"t":"none"});
+    let mut cmp_dn = String::new();
+    {
+        let mut pr = idms.proxy_read().await.expect("proxy_read");
+        ident = match pr.validate_ldap_session(&session, Source::Internal, ct) {
+            Ok(i) => i,
+            Err(e) => { eprintln!("TOOL-ERROR ldap session: {e:?}"); std::process::exit(2); }
+        };
+        basedn = format!("dc={}", pr.qs_read.get_domain_name().replace('.', ",dc="));
+        for e in search_all(&mut pr.qs_read) {
+            if let Ok(r) = pr.qs_read.uuid_to_rdn(e.get_uuid()) { rdn2uuid.insert(r, e.get_uuid()); }
+        }
+        fn cands(qs: &mut QueryServerReadTransaction<'_>, ident: &Identity, lf: &LdapFilter, acc: &mut Vec<String>, extra: &mut BTreeSet<Uuid>) {
+            if let Ok(fv) = Filter::from_ldap_ro(ident, &ldap_wrap(lf.clone()), qs).and_then(|f| f.validate(qs.get_schema()).map_err(OperationError::SchemaViolation)) {
+                for e in be_candidates(qs, ident, &fv.into_ignore_hidden()) { acc.push(nm(e.get_uuid())); extra.insert(e.get_uuid()); }
+            }
+        }
+        if kind == "ldap" {
+            if let Some(lf) = ast_to_ldap(&line["f"]) { cands(&mut pr.qs_read, &ident, &lf, &mut m, extra); }
+        } else {
+            let tu = un(line["t"].as_str().unwrap_or("e1"));
+            let rdn = pr.qs_read.uuid_to_rdn(tu).unwrap_or_else(|_| format!("uuid={tu}"));
+            cmp_dn = format!("{rdn},{basedn}");
+            let (ra, rv) = rdn.split_once('=').unwrap_or(("uuid", ""));
+            let rf = LdapFilter::Equality(ra.to_string(), rv.to_string());
+            let af = LdapFilter::Equality(line["atype"].as_str().unwrap_or("name").to_string(), line["val"].as_str().unwrap_or("").to_string());
+            cands(&mut pr.qs_read, &ident, &LdapFilter::And(vec![rf.clone(), af]), &mut m, extra);
+            cands(&mut pr.qs_read, &ident, &rf, &mut m2, extra);
+            f2 = json!({"t":"eq","a":ra,"v":vstr(rv)});
+            o.insert("f".into(), json!({"t":"and","s":[f2.clone(), {"t":"eq","a":line["atype"],"v":line["val"]}]}));
+        }
+    }
+    o.insert("id".into(), proj_ident(&ident));
+    let req = strs(&line["req"]);
+    let op = if kind == "ldap" {
+        let Some(lf) = ast_to_ldap(&line["f"]) else { eprintln!("TOOL-ERROR filter has no LDAP form"); std::process::exit(2); };
+        ServerOps::Search(SearchRequest { msgid: 1, base: basedn.clone(), scope: LdapSearchScope::Subtree, filter: lf, attrs: req.clone() })
+    } else {
+        ServerOps::Compare(CompareRequest { msgid: 1, entry: cmp_dn.clone(), atype: line["atype"].as_str().unwrap_or("name").to_string(), val: line["val"].as_str().unwrap_or("").to_string() })
+    };
+    let r = ldaps.do_op(idms, op, Some(token), std::net::IpAddr::V4(std::net::Ipv4Addr::LOCALHOST), uuid_e(9998)).await;
+    let mut out = Map::new();
+    let (mut ex, mut ex2) = (false, false);
+    let mut dnspn: Vec<String> = vec![];
+    let mut done_ok = false;
+    let res = match r {
+        Ok(LdapResponseState::MultiPartResponse(msgs)) | Ok(LdapResponseState::BindMultiPartResponse(_, msgs)) => {
+            for msg in msgs {
+                match msg.op {
+                    LdapOp::SearchResultEntry(e) => {
+                        let rdn = e.dn.strip_suffix(&format!(",{basedn}")).unwrap_or(&e.dn).to_string();
+                        let id = rdn2uuid.get(&rdn).map(|u| { extra.insert(*u); nm(*u) }).unwrap_or_else(|| format!("dn:{}", e.dn));
+                        if rdn.starts_with("spn=") { dnspn.push(id.clone()); }
+                        let names: Vec<String> = sorted(e.attributes.iter().map(|a| a.atype.to_lowercase()).collect());
+                        out.insert(id, json!(names));
+                    }
+                    LdapOp::CompareResult(cr) => {
+                        ex = cr.code == LdapResultCode::CompareTrue;
+                        ex2 = ex || cr.code == LdapResultCode::CompareFalse;
+                        done_ok = ex2 || cr.code == LdapResultCode::NoSuchObject;
+                    }
+                    LdapOp::SearchResultDone(d) => { done_ok = d.code == LdapResultCode::Success; }
+                    _ => {}
+                }
+            }
+            if done_ok { "ok".to_string() } else { "refused".to_string() }
+        }
+        Ok(LdapResponseState::Respond(msg)) => {
+            match msg.op {
+                LdapOp::CompareResult(cr) => {
+                    ex = cr.code == LdapResultCode::CompareTrue;
+                    ex2 = ex || cr.code == LdapResultCode::CompareFalse;
+                    done_ok = ex2 || cr.code == LdapResultCode::NoSuchObject;
+                }
+                LdapOp::SearchResultDone(d) => { done_ok = d.code == LdapResultCode::Success; }
+                _ => {}
+            }
+            if done_ok { "ok".to_string() } else { "refused".to_string() }
+        }
+        Ok(_) => "err_other".to_string(),
+        Err(e) => res_class(&Err(e)),
+    };
+    o.insert("m".into(), json!(sorted(m)));
+    o.insert("m2".into(), json!(sorted(m2)));
+    o.insert("f2".into(), f2);
+    o.insert("res".into(), json!(res));
+    o.insert("out".into(), J::Object(out));
+    o.insert("ex".into(), json!(ex));
+    o.insert("ex2".into(), json!(ex2));
+    o.insert("dnspn".into(), json!(dnspn));
+    if !o.contains_key("req") { o.insert("req".into(), json!([])); }
+    J::Object(o)
+}
+
 // ------------------------------------------------------------------ generation
 const ATTRS: [&str; 10] = ["class", "name", "displayname", "description", "memberof", "entry_managed_by", "uuid", "mail", "spn", "oauth2_rs_origin_landing"];
 
@@ -263,11 +406,12 @@ fn subset(rng: &mut Rng, pool: &[&str], lo: u64, hi: u64) -> Vec<String> {
 pub fn gen_receiver(rng: &mut Rng) -> (String, Vec<String>) {
     match rng.below(10) {
         0..=2 => ("group".into(), vec!["e20".into()]),
-        3..=4 => ("group".into(), vec!["e21".into()]),
-        5 => ("group".into(), vec!["e20".into(), "e21".into()]),
-        6 => ("group".into(), vec!["e22".into()]),
+        3 => ("group".into(), vec!["e21".into()]),
+        4 => ("group".into(), vec!["e20".into(), "e21".into()]),
+        // every account (also the anonymous identity the LDAP gateway maps unix binds to)
+        5..=6 => ("group".into(), vec![UUID_IDM_ALL_ACCOUNTS.to_string()]),
         7..=8 => ("mgr".into(), vec![]),
-        _ => ("none".into(), vec![]),
+        _ => if rng.chance(1, 2) { ("group".into(), vec!["e22".into()]) } else { ("none".into(), vec![]) },
     }
 }
 
@@ -295,7 +439,17 @@ fn gen_cfg(rng: &mut Rng) -> J {
     for _ in 0..nacp {
         let (rk, rg) = gen_receiver(rng);
         let tgt = if rng.chance(1, 25) { json!({"t":"none"}) } else { rng.pick(&tg).clone() };
-        acps.push(json!({"en": true, "rk": rk, "rg": rg, "tgt": tgt, "srch": true, "sa": subset(rng, &ATTRS, 1, 6)}));
+        let mut sa = subset(rng, &ATTRS, 1, 6);
+        if rng.chance(1, 2) { sa.push("class".into()); sa = sorted(sa); }
+        acps.push(json!({"en": true, "rk": rk, "rg": rg, "tgt": tgt, "srch": true, "sa": sa}));
+    }
+    if rng.chance(1, 4) && acps.len() < 4 {
+        // a broad profile for every account, so that the LDAP gateway's anonymous-bounded identity sees something
+        let mut sa: Vec<String> = ["class", "name", "spn", "uuid", "description", "displayname"].iter().map(|s| s.to_string()).collect();
+        let drop = rng.below(8) as usize;
+        if drop < sa.len() { sa.remove(drop); }
+        acps.push(json!({"en": true, "rk": "group", "rg": [UUID_IDM_ALL_ACCOUNTS.to_string()],
+            "tgt": if rng.chance(2, 3) { pres("class") } else { eq("description", "d1") }, "srch": true, "sa": sa}));
     }
     let o2g: Vec<&str> = match rng.below(4) { 0 => vec!["e20"], 1 => vec!["e21"], 2 => vec!["e22"], _ => vec!["e20", "e22"] };
     json!({"acps": acps, "ents": gen_ents(rng), "o2g": o2g})
@@ -307,6 +461,8 @@ pub fn run(o: &Opts) -> i32 {
     rt.block_on(async {
         let mut tr = Tracer::create(&out);
         let qs = base_world().await;
+        let (idms, _d, _a) = new_idms(qs.clone(), t(NOW - 1)).await;
+        let ldaps = LdapServer::new(&idms).await.expect("ldap server");
         let mut rng = Rng::new(o.seed());
         // script: list of (cfg input, searches)
         let mut script: Vec<(J, Vec<J>)> = Vec::new();
@@ -329,7 +485,7 @@ pub fn run(o: &Opts) -> i32 {
                 let cfg = gen_cfg(&mut rng);
                 let mut ss = Vec::new();
                 for _ in 0..per {
-                    let kind = match rng.below(10) { 0..=5 => "ext", 6..=7 => "exists", _ => "recycle" };
+                    let kind = match rng.below(12) { 0..=5 => "ext", 6..=7 => "exists", 8..=9 => "recycle", 10 => "ldap", _ => "ldapcmp" };
                     let mut req = if kind == "exists" { json!("all") } else { rng.pick(&ra).clone() };
                     let mut f = rng.pick(&rq).clone();
                     let mut idd = rng.pick(&ids).clone();
@@ -350,6 +506,21 @@ pub fn run(o: &Opts) -> i32 {
                             req = json!(sorted(v));
                         }
                     }
+                    if kind == "ldap" || kind == "ldapcmp" {
+                        // LDAP has no "self" term; attribute lists are explicit native names
+                        let nos: Vec<&J> = rq.iter().filter(|q| ast_to_ldap(q).is_some()).collect();
+                        if ast_to_ldap(&f).is_none() { f = (*rng.pick(&nos)).clone(); }
+                        if !req.is_array() { req = json!(["name", "class", "description", "uuid"]); }
+                        let idd = json!({"u": rng.pick(&["e10", "e12", "e3"]), "scope": "ro"});
+                        if kind == "ldap" {
+                            ss.push(json!({"kind": kind, "idd": idd, "f": f, "req": req}));
+                        } else {
+                            let t = rng.pick(&["e1", "e2", "e3", "e6", "e10", "e30", "e4"]);
+                            let (atype, val) = rng.pick(&[("description", "d1"), ("description", "d2"), ("displayname", "x1"), ("name", "n1"), ("class", "account"), ("class", "group")]);
+                            ss.push(json!({"kind": kind, "idd": idd, "t": t, "atype": atype, "val": val, "req": []}));
+                        }
+                        continue;
+                    }
                     ss.push(json!({"kind": kind, "idd": idd, "f": f, "req": req}));
                 }
                 script.push((cfg, ss));
@@ -360,9 +531,17 @@ pub fn run(o: &Opts) -> i32 {
                 eprintln!("TOOL-ERROR cannot apply configuration {k}: {e}");
                 return 2;
             }
-            let mut rd = qs.read().await.expect("read");
             let mut extra = BTreeSet::new();
-            let obs: Vec<J> = ss.iter().map(|s| do_search(&mut rd, s, &mut extra)).collect();
+            let mut obs: Vec<J> = Vec::new();
+            for s in ss.iter() {
+                if s["kind"].as_str().unwrap_or("").starts_with("ldap") {
+                    obs.push(do_ldap(&idms, &ldaps, s, &mut extra).await);
+                } else {
+                    let mut rd = qs.read().await.expect("read");
+                    obs.push(do_search(&mut rd, s, &mut extra));
+                }
+            }
+            let mut rd = qs.read().await.expect("read");
             let acps = proj_acps(&mut rd);
             tr.emit(&json!({"a":"cfg","n":k,"in":cfg,"acps":acps,"ents":proj_ents(&mut rd, &extra)}));
             for l in obs { tr.emit(&l); }
